@@ -213,3 +213,10 @@ package linux
 
 // text handed to the device, a file or a log is never interpreted as a printf format
 //vc:constformat[C05]
+
+// parseRoutes: a destination written as ADDRESS/LENGTH is split into exactly
+// these two parts, whatever the length is (the kernel prints a /32 route
+// without the suffix, so both spellings must give the same key); a bare
+// address is a host route, `default` is 0.0.0.0/0.
+//vc:func parseRoutes
+//vc:  assert[C05] at "result = append(result," @destinationSplitAtSlash (strings.Cut$2(words[0], "/") ==> ip == strings.Cut(words[0], "/") && prefix == strconv.Atoi(strings.Cut$1(words[0], "/"))) && (!strings.Cut$2(words[0], "/") && words[0] != "default" ==> ip == words[0] && prefix == 32) && (!strings.Cut$2(words[0], "/") && words[0] == "default" ==> ip == "0.0.0.0" && prefix == 0)
